@@ -47,5 +47,15 @@ claim("C17", "table agreement over the type-checked AST (constructor field-name 
       "Decides for all schemas at once that every introspection field of every __ type is served by every Go type that can stand behind it, by the member it names, that list results stay inside the library's own list handling whatever resolver strategy the application uses, that introspection is read-only, and that deprecation filtering is uniform. Three genuine defects found by these rules were repaired (interfaces as []Type, wrapper description = kind, Interface ignoring includeDeprecated).",
       TB)
 
-for p in ["C03","C05","C07","C13","C15","C16","C18"]:
+claim("C05", "phi-leaf provenance of every value leaving the type dispatcher / appended by the list resolver, guard analysis at every CoerceOut call site, range-guard analysis of narrowing conversions and finiteness of float results in output coercers, set comparison of kind/location constants with the built-in enums",
+      "Decides that no raw resolver value can reach the response except through the declared type's output coercer (or as a recursively resolved object/list), that a failed coercion cannot leak its operand, that integer narrowing and float overflow/NaN cannot pass an output coercer silently, and that reported kinds/locations are enum members. Nine genuine defects found by these rules were repaired; four are pinned by existing tests and listed as known findings (raw object at depth exhaustion, accessor value kept with its error, VARIABLE_DEFINITION missing from __DirectiveLocation, Enum.CoerceOut accepting any string).",
+      TB)
+claim("C07", "constant-key and guard rules on the envelope builders (SSA), interval (finite-domain) reasoning over the rune in the string writer, provenance of non-constant strings written by the value writer, finiteness of float coercer results",
+      "Decides the envelope shape (only data/errors, errors only with an error, error groups never empty, error entries only with the four allowed keys and always a message), and - for every code point at once - that no character that must be escaped can reach a raw write in the string writer and that the value writer never writes an unescaped non-constant string; together with C05.FINITE this is what valid JSON depends on structurally. Line/column arithmetic and decode-equality are not decided.",
+      TB)
+claim("C18", "interval reasoning over the rune (as C07.ESC), provenance of written strings (C07.RAW), set comparison of escape letters emitted by the writer vs. accepted by the reader, set comparison of dynamic types produced by the reader vs. handled by the writer",
+      "Decides the agreement of the value writer's and reader's tables (escape letters, \\u width, value kinds) and the escaping discipline for every code point; the round trip itself and tight-mode separators are not decided.",
+      TB)
+
+for p in ["C03","C13","C15","C16","C18"]:
     na(p, "rules designed (DESIGN.md section 4) but not yet implemented in the checker at this commit; will be claimed once its rule set runs clean")
